@@ -25,20 +25,25 @@ import socket as real_socket
 import sys
 import threading as real_threading
 
-from tornado.platform import asyncio as tpa  # imported before the fork, not per child
+# everything SimEnv patches must be imported before the fork, not once per child
+import tornado.httpclient  # noqa: F401
+import tornado.simple_httpclient  # noqa: F401
+import tornado.tcpclient  # noqa: F401
+import tornado.web  # noqa: F401
+import tornado.websocket  # noqa: F401
+from tornado.platform import asyncio as tpa
 
 from sim.env import SimEnv, ModProxy, UNIT
-from sim.net import SimNet
 from sim.tape import jsonable
 from sim.threads import (Baton, BatonLoop, SimSelect, sim_threading, line_tracer,
                          run_forked, DONE, BLOCKED)
 
 ID = "C40"
 LEVEL = "exploration"
-QUICK_N = 64000
-THOROUGH_N = 1_600_000
+QUICK_N = 20000
+THOROUGH_N = 800_000
 CHUNK = 400
-WALL = 20.0
+WALL = 30.0
 RULE = ("gen(seed): 1-4 fds with per-dispatch callback action lists (consume all/some, "
         "remove, re-register, remove+close fd, close selector, add writer), an op list on the "
         "loop thread (add/remove reader/writer, remove+close, peer send now/later, FIN, window "
@@ -70,8 +75,8 @@ ASSUMPTIONS = [
 
 OPS = ("add_r", "rm_r", "add_w", "rm_w", "rm_close", "send", "fin", "drain", "sleep", "tick",
        "idle", "close", "agens")
-RACTS = ("all", "some", "rm", "rereg", "rmclose", "closesel", "addw")
-WACTS = ("fill", "once", "rereg", "rmclose", "closesel")
+RACTS = ("all", "some", "rm", "rereg", "rmclose", "closesel", "addw", "raise")
+WACTS = ("fill", "once", "rereg", "rmclose", "closesel", "raise")
 FINALS = ("sel_close", "loop_first")
 
 
@@ -106,17 +111,21 @@ def gen(rng, tier, index):
         "waker_cap": rng.choice([1, 1, 2, 4096]),
         "closed_wakes": rng.random() < 0.5,
         "line": line,
+        # register socket objects (as asyncio users do) instead of descriptor numbers (as IOLoop does)
+        "fdobj": rng.random() < 0.15,
     }
+    raising = rng.random() < 0.15
     nfd = rng.choice([1, 1, 2, 2, 3, 4])
     fds = []
     for i in range(nfd):
         ract = []
         for _ in range(rng.choice([0, 0, 1, 2, 3])):
             ract.append(rng.choice(["all", "some", "some", "rm", "rereg", "rereg", "rmclose",
-                                    "closesel", "addw"]))
+                                    "closesel", "addw"] + (["raise"] * 6 if raising else [])))
         wact = []
         for _ in range(rng.choice([0, 0, 1, 2])):
-            wact.append(rng.choice(["fill", "once", "rereg", "rereg", "rmclose", "closesel"]))
+            wact.append(rng.choice(["fill", "once", "rereg", "rereg", "rmclose", "closesel"]
+                                   + (["raise"] * 3 if raising else [])))
         fds.append({"win": rng.choice([1, 2, 4, 8]), "wbytes": rng.choice([0, 1, 3, 8, 20]),
                     "rcap": rng.choice([1, 2, 64]), "ract": ract, "wact": wact})
     big = tier == "thorough" and rng.random() < 0.3
@@ -198,6 +207,10 @@ class _World:
     pass
 
 
+class _WorkloadError(Exception):
+    """Raised on purpose by a workload callback (action "raise")."""
+
+
 def _child(scn, full_log, result):
     knobs = scn["knobs"]
     viol = []
@@ -213,6 +226,7 @@ def _child(scn, full_log, result):
     W.finished = False
     W.phase = "setup"
     W.outcome = []
+    W.raised = 0  # workload callbacks that raised on purpose
 
     def bad(rule, msg, key=None):
         for v in viol:
@@ -223,11 +237,10 @@ def _child(scn, full_log, result):
     def probe(name, n=1):
         probes[name] = probes.get(name, 0) + n
 
-    env = SimEnv(scn.get("tapes"), max_iters=6000, full_log=full_log, allow=("threads",))
-    env.loop.close()
-    loop = BatonLoop(env.tapes, env.log, max_iters=6000)
-    env.loop = loop
-    env.net = SimNet(loop, env.tapes, env.log, default_window=64)
+    env = SimEnv(scn.get("tapes"), max_iters=6000, window=64, full_log=full_log,
+                 allow=("threads",))
+    loop = env.loop
+    loop.__class__ = BatonLoop  # same layout; adds the scheduler's yield points
     net = env.net
     log = env.log
 
@@ -250,8 +263,15 @@ def _child(scn, full_log, result):
                 bad("selector_thread.exception",
                     f"{type(r.exc).__name__}: {r.exc} escaped thread {r.name}",
                     "selector_thread.exception/" + type(r.exc).__name__)
+        n_raised = 0
         for msg, exc in env.loop_errors:
+            if exc == "_WorkloadError":
+                n_raised += 1
+                continue
             bad("loop.callback_exception", f"{msg}: {exc}", f"loop.callback_exception/{exc}")
+        if n_raised != W.raised:
+            bad("callback.exception_not_reported", f"{W.raised} workload callbacks raised but the "
+                f"loop's exception handler saw {n_raised}")
         st = env.stats()
         st["probes"].update(probes)
         st["probes"]["thread_switches"] = sched.switches
@@ -268,8 +288,8 @@ def _child(scn, full_log, result):
                                  "threads": sched.describe(), "dispatches": W.dispatches}),
         })
 
-    sched = Baton(env.tapes.draw, log, max_steps=40000 if knobs.get("line") else 12000,
-                  fair_cap=6000, on_fatal=lambda kind, detail: finish((kind, detail)))
+    sched = Baton(env.tapes.draw, log, max_steps=30000 if knobs.get("line") else 5000,
+                  fair_cap=8000 if knobs.get("line") else 2000, on_fatal=lambda kind, detail: finish((kind, detail)))
     sched.adopt("L")
     loop.attach(sched)
 
@@ -351,7 +371,7 @@ def _child(scn, full_log, result):
         f.i = i
         f.sock, f.peer = net.pair(window_ab=spec["win"], tag_a="f%d" % i, name="p%d" % i)
         f.peer.auto = False
-        f.fd = f.sock.fileno()
+        f.fd = f.sock if knobs.get("fdobj") else f.sock.fileno()
         f.ract = list(spec["ract"])
         f.wact = list(spec["wact"])
         f.wbytes = spec["wbytes"]
@@ -477,6 +497,10 @@ def _child(scn, full_log, result):
             o = fds[(i + 1) % len(fds)]
             if not o.closed and not W.sel_closed:
                 add_w(o)
+        elif act == "raise":
+            W.raised += 1
+            probe("callback_raised")
+            raise _WorkloadError("reader fd#%d" % i)
 
     def on_write(i, g):
         dispatch_common("w", i, g)
@@ -510,6 +534,11 @@ def _child(scn, full_log, result):
             if not W.sel_closed:
                 probe("close_in_callback")
                 close_selector("callback")
+        elif act == "raise":
+            rm_w(f)
+            W.raised += 1
+            probe("callback_raised")
+            raise _WorkloadError("writer fd#%d" % i)
 
     def build():
         state["sel"] = tpa.AddThreadSelectorEventLoop(loop)
@@ -579,7 +608,15 @@ def _child(scn, full_log, result):
         sched.set_fair()
 
     # ---- run ------------------------------------------------------------------
+    def on_loop_error(_loop, context):
+        # (the core's handler logs the message, whose argument reprs contain addresses)
+        exc = context.get("exception")
+        name = type(exc).__name__ if exc is not None else None
+        env.loop_errors.append((str(context.get("message", "")).split("(")[0][:60], name))
+        log.ev("loop_error", name)
+
     with env:
+        loop.set_exception_handler(on_loop_error)
         if knobs.get("line"):
             sched.tracer = line_tracer(sched, ("tornado/platform/asyncio.py",))
             sys.settrace(sched.tracer)
@@ -618,15 +655,18 @@ def _child(scn, full_log, result):
                 for f in fds:
                     if f.closed:
                         continue
+                    ctx = "/after_callback_exception" if W.raised else ""
                     if f.i in W.readers and f.sock.readable():
                         bad("lost_event.read", f"quiescent, but fd#{f.i} is registered for reading "
                             f"and readable ({len(f.sock.rx.rbuf)} bytes buffered, fin="
-                            f"{f.sock.rx.fin}); threads: {sched.describe()}; schedule tail: "
-                            + sched.trail_text(30))
+                            f"{f.sock.rx.fin}); {W.raised} callbacks raised earlier; threads: "
+                            f"{sched.describe()}; schedule tail: " + sched.trail_text(30),
+                            "lost_event.read" + ctx)
                     if f.i in W.writers and f.sock.writable():
                         bad("lost_event.write", f"quiescent, but fd#{f.i} is registered for writing "
-                            f"and writable; threads: {sched.describe()}; schedule tail: "
-                            + sched.trail_text(30))
+                            f"and writable; {W.raised} callbacks raised earlier; threads: "
+                            f"{sched.describe()}; schedule tail: " + sched.trail_text(30),
+                            "lost_event.write" + ctx)
             # -- final close
             W.phase = "final_close"
             sel = state["sel"]
@@ -670,7 +710,17 @@ def _child(scn, full_log, result):
         finish()
 
 
+_frozen = []
+
+
 def run(scn, full_log=False):
+    if not _frozen:
+        # keep the child's page-copying small: nothing allocated so far is ever
+        # visited by a collection again (neither here nor in the children)
+        import gc
+        gc.collect()
+        gc.freeze()
+        _frozen.append(1)
     res = run_forked(lambda result: _child(scn, full_log, result), wall=WALL)
     if res.get("log_full") is None:
         res["log_full"] = None
